@@ -68,24 +68,7 @@ def is_utc(v):
     return isinstance(v, I.Ext) and v.path == UTC
 
 
-def naive_test_ok(g, P):
-    """or(is(attr(P,'tzinfo'), None), is(method(attr(P,'tzinfo'),
-    'utcoffset', (P)), None))"""
-    parts = g.args if isinstance(g, Sym) and g.op == 'or' else (g,)
-    saw_none = False
-    for p in parts:
-        if not (isinstance(p, Sym) and p.op == 'is' and p.args[1] is None):
-            return False
-        x = p.args[0]
-        if isinstance(x, Sym) and x.op == 'attr' and x.args[0] is P and \
-                x.args[1] == 'tzinfo':
-            saw_none = True
-        elif isinstance(x, Sym) and x.op == 'method' and \
-                x.args[1] == 'utcoffset':
-            pass
-        else:
-            return False
-    return saw_none
+from ..tsrules import naive_test_ok  # noqa: E402
 
 
 def run(chk, ctx):
@@ -140,6 +123,29 @@ def run(chk, ctx):
         raise AnalysisError('anchor vanished: timestamp encoder')
     E = pairs.enc_desc(ctx, te)
     site = '%s:%d' % (te.module.relpath, te.node.lineno)
+    # no caching wrapper on the timestamp path: a cache keyed by == / hash
+    # of a datetime ignores `fold`, so the two readings of a repeated hour
+    # would share one result
+    tfuncs = {te.qualname: te}
+    descs = [E]
+    td_ = dec.get('timestamp')
+    if td_ is not None:
+        tfuncs[td_.qualname] = td_
+        descs.append(pairs.dec_desc(ctx, td_))
+    for desc in descs:
+        for short, _c, _s, _d in desc.interp.calls:
+            f_ = prog.functions.get('pamqp.' + short.split(' ')[0])
+            if f_ is not None:
+                tfuncs[f_.qualname] = f_
+    caching, unknown_deco = models.wrappers(prog, tfuncs.values())
+    chk.rule('C15.W', 'no caching wrapper sits on the timestamp encode / '
+             'decode path (datetime equality and hashing ignore fold)')
+    chk.ob('C15.W', 'timestamp path wrappers', not caching,
+           '%d functions on the timestamp path, none cached' % len(tfuncs)
+           if not caching else 'cached: %s' % caching)
+    if unknown_deco:
+        chk.undecide('C15.W', 'decorators without a model',
+                     '; '.join(unknown_deco[:3]))
     nts = 0
     for i, p in enumerate(E.paths):
         for s in p.segs:
